@@ -217,6 +217,36 @@ impl<'a> JSONValidator<'a> {
     jv
   }
 
+  /// A range bound that names a rule consisting of one numeric literal stands
+  /// for that literal (RFC 8610 Section 2.2.2.1: `byte = 0..max-byte`,
+  /// `max-byte = 255`); any other bound is returned as written
+  fn range_bound_literal<'b>(&self, bound: &'b Type2<'b>) -> &'b Type2<'b>
+  where
+    'a: 'b,
+  {
+    if let Type2::Typename { ident, .. } = bound {
+      for rule in self.state.cddl.rules.iter() {
+        if let Rule::Type { rule, .. } = rule {
+          if rule.name.ident == ident.ident {
+            if let [tc] = rule.value.type_choices.as_slice() {
+              if tc.type1.operator.is_none()
+                && matches!(
+                  tc.type1.type2,
+                  Type2::UintValue { .. } | Type2::IntValue { .. } | Type2::FloatValue { .. }
+                )
+              {
+                return &tc.type1.type2;
+              }
+            }
+            return bound;
+          }
+        }
+      }
+    }
+
+    bound
+  }
+
   fn repeating_member_upper_bound(entry: &ValueMemberKeyEntry<'a>) -> Option<usize> {
     entry.occur.as_ref().and_then(|occurrence| {
       if let Occur::Exact { upper, .. } = occurrence.occur {
@@ -1273,6 +1303,9 @@ impl<'a> Visitor<'a, '_, Error> for JSONValidator<'a> {
     upper: &Type2,
     is_inclusive: bool,
   ) -> visitor::Result<Error> {
+    let lower = self.range_bound_literal(lower);
+    let upper = self.range_bound_literal(upper);
+
     if matches!(&self.json, Value::Array(_)) {
       return self.validate_array_items(&ArrayItemToken::Range(lower, upper, is_inclusive));
     }
